@@ -325,6 +325,13 @@ def run(ctx):
             # backward Euler damps the swing itself: at these steps its error is of the size of the swing and far from
             # its asymptotic regime, so only a clear decrease is required of it
             need = 6.0 if order == 2 else 1.3
+            if order == 1 and r.get('wn'):
+                # backward Euler damps a swing of frequency wn like exp(-wn^2 h t / 2): at these steps the error saturates
+                # at the swing amplitude, and quartering the step lowers it by (1 - e^{-c h}) / (1 - e^{-c h / 4}) only,
+                # c = wn^2 T / 2 (a ratio near 1 for swings above 2 Hz); never stricter than the plain criterion
+                ch = r['wn'] ** 2 * spec['tf'] / 2 / 30
+                r_exp = (1 - math.exp(-ch)) / (1 - math.exp(-ch / 4))
+                need = min(1.3, max(1.05, 0.85 * r_exp))
             if e1 > 1e-7 and ratio < need:
                 ctx.oracle_fail('smib-not-converging', '%s: error in delta %.3g at h=1/30 and %.3g at h=1/120 (ratio %.2f < %.1f): the '
                                 'trajectory does not converge to the reference at the method\'s order' % (spec['method'], e1, e4, ratio, need), spec)
